@@ -323,6 +323,8 @@ def _replay_one(mod, pid: str, path: Path) -> int:
 def _run_check(mod, modname, pid, tier, seed, nproc, t0, write_evidence) -> int:
     findings = load_findings(pid)
     known_sigs = {f.sig: f for f in findings}
+    for stale in (VERIF / "replays" / "found").glob(f"{pid}-*.json"):
+        stale.unlink()
     violations: list[tuple[str, Path, str]] = []
     known_lines: list[str] = []
     replayed = Counter()
